@@ -368,3 +368,28 @@ Section Transfer.
       auto using LegacySortProofs.sort_legacy_sort_spec.
   Qed.
 End Transfer.
+
+(* non-vacuity: a two-layer prefix / suffix tree of the fragment, and what the bridge says about it *)
+Definition frag_example : ptree :=
+  PDir "top" (mkPDirs "" "p-" "" [] [] [] [] [])
+    [PDir "base" (mkPDirs "" "q-" "-s" [] [] [] [] [])
+       [PFile [Map [("apiVersion", Scalar TStr SPlain "v1"); ("kind", Scalar TStr SPlain "ConfigMap");
+                    ("metadata", Map [("name", Scalar TStr SPlain "cfg")])]]];
+     PFile [Map [("apiVersion", Scalar TStr SPlain "v1"); ("kind", Scalar TStr SPlain "Namespace");
+                 ("metadata", Map [("name", Scalar TStr SPlain "ns")])]]].
+
+Example frag_example_frag : frag frag_example.
+Proof.
+  constructor; [unfold frag_dirs; cbn; repeat split; reflexivity|].
+  constructor; [|constructor; [|constructor]].
+  - constructor; [unfold frag_dirs; cbn; repeat split; reflexivity|]. constructor; [|constructor].
+    constructor. constructor; [solve_wf_node|constructor].
+  - constructor. constructor; [solve_wf_node|constructor].
+Qed.
+
+Example frag_example_names :
+  match accumulate (fun _ => false) frag_example with
+  | Ok m => map (fun r => LegacySort.id_name (rid_of r)) m
+  | _ => []
+  end = ["p-q-cfg-s"; "ns"].
+Proof. vm_compute. reflexivity. Qed.
